@@ -140,6 +140,33 @@ def run(tier):
             suite.fact('dagger.after_subs.type[%s]' % nm, (got.dom, got.cod) == (ref.dom, ref.cod), functions=['cat.Box.subs'])
             suite.identity('dagger.after_subs[%s]' % nm, entries(mat(got)), entries(mat(ref)), extra=(py,), functions=['cat.Box.subs', 'tensor.Functor.__call__'],
                            what='substitution keeps the dagger: the evaluation is the conjugate transpose of the substituted box')
+    # a tensor is the matrix FROM its flattened domain TO its flattened codomain however the entries are handed over: flat,
+    # nested by wire, or as the row / column / block matrix itself
+    with suite.guard('arrays handed over in other shapes', [fq + '__init__']):
+        import numpy as _np
+        for a_, b_ in (((2, 3), ()), ((), (2, 3)), ((2,), (3,)), ((2, 3), (2,)), ((2, 2), (3,)), ((4,), (2, 3))):
+            n_in, n_out = prod(a_), prod(b_)
+            flat = [sympy.Integer(7 * k + 1) + sympy.I * (k % 3) for k in range(n_in * n_out)]
+            ref = Tensor(Dim(*a_), Dim(*b_), flat)
+            shapes = {'matrix': (n_in, n_out), 'column': (n_in * n_out, 1), 'row': (1, n_in * n_out), 'by wire': tuple(a_ + b_) or (1,)}
+            for nm, shp in shapes.items():
+                t_ = Tensor(Dim(*a_), Dim(*b_), _np.array(flat, dtype=object).reshape(shp))
+                suite.fact('init.shape[%s]%s->%s' % (nm, a_, b_), _np.shape(t_.array) == _np.shape(ref.array) and t_ == ref,
+                           functions=[fq + '__init__'], what='the same entries in shape %r give the same tensor' % (shp,))
+                g_ = sym_tensor(b_, (2,), 'g')
+                suite.identity('init.shape.then[%s]%s->%s' % (nm, a_, b_), entries(mat(t_ >> g_)), entries(mat(g_) * mat(ref)), extra=free(g_),
+                               functions=[fq + '__init__', fq + 'then'], what='... and composes as the matrix product')
+    # adjoints of multi-wire images: a tensor functor sends x.l, x.r, x.l.l, x.r.r ... to the adjoints of the image (reversed
+    # for odd winding numbers, as it is for even ones)
+    with suite.guard('adjoint types through evaluation', ['tensor.Functor.__call__']):
+        x_, y_ = _r.Ty('x'), _r.Ty('y')
+        F_ = _t.Functor({x_: Dim(2, 3), y_: Dim(5)}, {})
+        for nm, t_ in (('x', x_), ('x.l', x_.l), ('x.r', x_.r), ('x.l.l', x_.l.l), ('x.r.r', x_.r.r), ('x.r.r.r', x_.r.r.r), ('x @ y', x_ @ y_),
+                       ('(x @ y).l', (x_ @ y_).l), ('(x @ y).r.r', (x_ @ y_).r.r), ('y.l @ x.l.l', y_.l @ x_.l.l)):
+            base_ = {'x': Dim(2, 3), 'x.l': Dim(3, 2), 'x.r': Dim(3, 2), 'x.l.l': Dim(2, 3), 'x.r.r': Dim(2, 3), 'x.r.r.r': Dim(3, 2), 'x @ y': Dim(2, 3, 5),
+                     '(x @ y).l': Dim(5, 3, 2), '(x @ y).r.r': Dim(2, 3, 5), 'y.l @ x.l.l': Dim(5, 2, 3)}[nm]
+            suite.fact('functor.adjoint_type[%s]' % nm, tuple(F_(t_)) == tuple(base_) and tuple(F_(t_.l)) == tuple(base_)[::-1] and tuple(F_(t_.r)) == tuple(base_)[::-1],
+                       functions=['tensor.Functor.__call__'], what='F(%s) = %r, and F of its adjoints is that reversed (got %r, %r, %r)' % (nm, base_, F_(t_), F_(t_.l), F_(t_.r)))
     # wires of dimension one: a box whose image is a scalar although its domain and codomain have different numbers of wires
     # (m : s @ s -> s, cups and caps on s) must not disturb the boxes to its right -- tensor is the Kronecker product and
     # composition the matrix product also around the empty type
